@@ -450,8 +450,10 @@ def history_definite(model: Model, sw: "SharedWrite") -> bool:
             continue
         if base in ("subscript-aug", "aug-assign") or base.startswith("attr-aug:"):
             return True
-        if base in ("method:sort", "method:reverse", "method:insert", "method:extend"):
+        if base in ("method:reverse", "method:insert", "method:extend"):
             return True
+        # (an in-place sort of persistent data is idempotent: whether a call ever sees the unsorted state is a question about
+        #  the order of the data when it is first reached -- not positive evidence for the single-threaded history clause)
         if base == "subscript-store:const" and (sw.depth <= 1 or deep_store_is_rmw(model, sw)):
             # (deeper inside a shared structure the abstraction no longer tells a work vector that is written before it is read
             #  from a component of persistent data: not positive evidence)
@@ -486,6 +488,38 @@ def tolerant_eviction(sw: "SharedWrite", base: str) -> bool:
     return False
 
 
+def guarded_multi_append(model: Model, sw: "SharedWrite") -> bool:
+    """`if not X: for ...: X.append(v)`  -- a shared list filled lazily by several appends under a test of its own emptiness /
+    length: between the first and the last append another thread passes the test and works with the partial list"""
+    fi = model.funcs.get(sw.origin_func)
+    if fi is None:
+        return False
+    parents: Dict[int, ast.AST] = {}
+    for n in ast.walk(fi.node):
+        for c in ast.iter_child_nodes(n):
+            parents[id(c)] = n
+    for kind, line, text in sw.records:
+        if kind.split(" (")[0] != "method:append":
+            continue
+        for n in ast.walk(fi.node):
+            if isinstance(n, ast.Call) and getattr(n, "lineno", -1) == line and isinstance(n.func, ast.Attribute) and n.func.attr == "append":
+                cont = core.src(n.func.value)
+                in_loop, guard = False, None
+                cur: ast.AST = n
+                while id(cur) in parents:
+                    cur = parents[id(cur)]
+                    if isinstance(cur, (ast.For, ast.While)):
+                        in_loop = True
+                    elif isinstance(cur, ast.If) and in_loop:
+                        t = core.src(cur.test).replace(" ", "")
+                        if t in (f"not{cont}", f"len({cont})==0", f"{cont}==[]", f"not{cont}:") or t.startswith(f"len({cont})<") or t == f"not{cont}":
+                            guard = cur
+                            break
+                if in_loop and guard is not None:
+                    return True
+    return False
+
+
 def write_is_definite(model: Model, sw: "SharedWrite", threads: bool = True) -> bool:
     """True when the write is data modification (scratch store, in-place transformation, counter-like update) rather than
     a possibly idempotent keyed fill.  With threads=False (history analysis) stores that initialise an object already
@@ -506,6 +540,8 @@ def write_is_definite(model: Model, sw: "SharedWrite", threads: bool = True) -> 
         if base == "subscript-store:key" and store_is_rmw(model, sw.origin_func, sw.origin_line):
             return True
         if base in ("method:append", "method:add", "method:setdefault", "method:update") and call_is_rmw(model, sw.origin_func, sw.origin_line):
+            return True
+        if threads and base == "method:append" and guarded_multi_append(model, sw):
             return True
     return False
 
